@@ -22,6 +22,6 @@ def opLeToRc (j : Json) : Except String Json := do
   let S ← readConeProg (← fld j "support")
   let R ← readRoRows (← fld j "rows")
   let F := R.leToRc S
-  pure (writeConeProg F.prog [("n1", oNat F.n1), ("n2", oNat F.n2), ("n3", oNat F.n3)])
+  pure (writeConeProg F.prog [("n1", oNat F.n1), ("n2", oNat F.n2), ("n3", oNat F.n3), ("n4", oNat F.n4)])
 
 end RsomeV.Drv
